@@ -366,19 +366,19 @@ def mk_multi(kname, lens, alpha="pair"):
 
 def specs(tier):
     out = []
-    nmax = 3 if tier == "quick" else 5
+    nmax = 3 if tier == "quick" else 4  # (5 characters over 144 code points cost hours and found nothing beyond 4)
     for k in SINGLE:
         kmax = nmax
         if tier == "thorough" and k in ("enum_string_member", "enum_integer_member"):
-            kmax = 6
+            kmax = 5
         for n in range(0, kmax + 1):
             out.append((MOD, "mk_single", (k, n)))
-    pair_lens = [(1, 1), (1, 2), (2, 1), (2, 2)] if tier == "quick" else [(1, 1), (1, 2), (2, 1), (2, 2), (2, 3), (3, 2), (3, 3), (1, 3), (3, 1)]
+    pair_lens = [(1, 1), (1, 2), (2, 1), (2, 2)] if tier == "quick" else [(1, 1), (1, 2), (2, 1), (2, 2), (2, 3), (3, 2), (1, 3), (3, 1)]
     for k in MULTI:
         for lens in pair_lens:
             out.append((MOD, "mk_multi", (k, lens)))
         if tier == "thorough":
-            for lens in [(1, 1, 1), (1, 1, 2), (1, 2, 1), (2, 1, 1), (2, 2, 1), (2, 1, 2), (1, 2, 2), (2, 2, 2)]:
+            for lens in [(1, 1, 1), (1, 1, 2), (1, 2, 1), (2, 1, 1), (2, 2, 1), (2, 1, 2), (1, 2, 2)]:
                 out.append((MOD, "mk_multi", (k, lens)))
             if k == "operation_methods":
                 out.append((MOD, "mk_multi", (k, (3, 1, 1))))
@@ -392,7 +392,7 @@ def specs(tier):
             if k == "schema_classes_modules":
                 suffix_lens += [(2, 1, 1), (1, 1, 2)]  # class names are de-collided without a separator: A, A -> A, A2 next to a2
         else:
-            suffix_lens = [(3, 1, 1), (1, 3, 1), (1, 1, 3), (3, 2, 1), (3, 1, 2), (4, 1, 1), (1, 1, 4), (2, 1, 1), (1, 2, 1), (1, 1, 2)]
+            suffix_lens = [(3, 1, 1), (1, 3, 1), (1, 1, 3), (2, 1, 1), (1, 2, 1), (1, 1, 2)]
         for lens in suffix_lens:
             out.append((MOD, "mk_multi", (k, lens, "suffix")))
     return out
@@ -403,8 +403,8 @@ def run(tier, rep, only=None):
     if only:
         sp = [s for s in sp if only in explore.build(s).name]
     rep.bounds = {
-        "single_name_max_len": 3 if tier == "quick" else "5 (6 for tag/enum kernels)",
-        "pair_lengths": "<=2x2 (+1x1x1)" if tier == "quick" else "<=3x3, triples <=2x2x2",
+        "single_name_max_len": 3 if tier == "quick" else "4 (5 for enum kernels)",
+        "pair_lengths": "<=2x2 (+1x1x1)" if tier == "quick" else "<=3x2 / 1x3, triples <=2x2x1",
         "alphabet_single": "SIGMA = ASCII 0..127 + 16 non-ASCII exemplars (144 code points)",
         "alphabet_multi": "abAB12_- .{$é²",
     }
